@@ -15,7 +15,7 @@ from harness.common import B
 from harness.tv import tv
 
 TYPES = sorted(enc.INT) + [enc.BOOLEAN, enc.REAL32, enc.REAL64, enc.VSTR, enc.OSTR, enc.USTR, enc.DOMAIN]
-REC_IDX, ARR_IDX = 0x3000, 0x3100
+REC_IDX, ARR_IDX, DOT_IDX = 0x3000, 0x3100, 0x3200
 
 
 def var_idx(dt):
@@ -41,6 +41,7 @@ def build_od():
                        "rcb": [-1]})
     for dt in TYPES:
         add(None, f"Var{dt:02X}", var_idx(dt), 0, dt)
+    add(None, "Max. speed", DOT_IDX, 0, 0x6)          # a name with a dot is not a 'Record.Member' path
     rec = ODRecord("Rec", REC_IDX)
     od.add_object(rec)
     add(rec, "Count", REC_IDX, 0, 0x5)
@@ -79,6 +80,8 @@ def accessor(sdo, op):
         if how == "index":
             return sdo[idx][sub]
         return sdo["Arr"][sub] if how == "name" else sdo[f"Arr.A{sub}"]
+    if idx == DOT_IDX:
+        return sdo[idx] if how == "index" else sdo["Max. speed"]
     if how == "index":
         return sdo[idx]
     return sdo[f"Var{idx - 0x2000:02X}"]
